@@ -8,6 +8,7 @@ M=[
  (["C01","C14"],"S1d-offset-underflow","scanner/steps.go","	case ContextOpenSign:\n		s.found(ContextOpen)\n		s.step = stateContextOpenedOnNewline","	case ContextOpenSign:\n		s.foundAt(s.curIndex-1, ContextOpen)\n		s.step = stateContextOpenedOnNewline","S1d:"),
  (["C01"],"S1e-no-progress","scanner/steps-comments.go","	default:\n		s.step = stateCommentBlock\n		return s.step(s, c)\n	}\n}\n\nfunc stateCommentTwiceClosed","	default:\n		return s.step(s, c)\n	}\n}\n\nfunc stateCommentTwiceClosed","S1e:cycle"),
  (["C14"],"S1g-silent-skip","scanner/steps.go","	case CommentSign:\n		return s.startComment()\n	default:\n		return s.japiErrorUnexpectedChar(\"after body\", \"\")","	case CommentSign:\n		return s.startComment()\n	case ',', ';':\n		return nil\n	default:\n		return s.japiErrorUnexpectedChar(\"after body\", \"\")","S1g:stateBodyEnded"),
+ (["C05"],"W3-blank-line-error","scanner/steps-headers.go","	case caseWhitespace(c), caseNewLine(c):\n		return nil\n	case CommentSign:\n		return s.startComment()\n	case ObjectOpen, LinkSymbol:","	case caseWhitespace(c):\n		return nil\n	case CommentSign:\n		return s.startComment()\n	case ObjectOpen, LinkSymbol:","W3:stateHeaderBody"),
  (["C14","C04"],"K2-wrong-letter","scanner/steps-tags.go","	if c != 's' {\n		return stateTagsError(s, \"s\")","	if c != 'z' {\n		return stateTagsError(s, \"s\")","K2:"),
  (["C14"],"LJ1-end-offset","scanner/steps.go","	case caseNewLine(c), EOF:\n		s.foundAt(s.curIndex-1, SchemaEnd)\n		s.step = stateExpectKeyword","	case caseNewLine(c), EOF:\n		s.foundAt(s.curIndex-2, SchemaEnd)\n		s.step = stateExpectKeyword","LJ1:"),
  (["C14","C01"],"S1b-double-begin","scanner/steps-directive-parameters.go","	case DoubleQuote:\n		s.found(ParameterEnd)\n		s.step = stateParameterOrAnnotation","	case DoubleQuote:\n		s.found(ParameterEnd)\n		s.found(ParameterEnd)\n		s.step = stateParameterOrAnnotation","S1b:"),
